@@ -76,6 +76,11 @@ DECIDING = {
     "faults_error": 10000, "fault_ciphertext_byte": 40000, "fault_truncation": 12000, "fault_extension": 600,
     "fault_wrong_key": 300, "fault_uri_swap": 300, "fault_enc_field": 1000, "positive_controls": 400,
     "unencodable_probes": 200, "enc_error_uris": 3, "layouts": 16,
+    # >= 2 handlers on one subscription id: all of them get the exact payload / none of them runs for a rejected EVENT
+    "multi_handler_events_compared": 500, "multi_handler_rejections": 10000,
+    # pattern-based subscriptions / registrations (concrete URI in details.topic / details.procedure, key by concrete URI)
+    "pattern_events_compared": 300, "pattern_invocations_compared": 1000, "pattern_results_compared": 800,
+    "pattern_errors_compared": 300, "faults_pattern_registration": 5000, "pattern_policies": 4,
 }
 
 COMBOS = [("websocket", "json"), ("websocket", "msgpack"), ("websocket", "cbor"), ("websocket", "ubjson"),
@@ -808,9 +813,11 @@ def faults_event(ctx, topic, other, shape, stride, pattern=False):
 
     def setup():
         p = ctx.P()
-        p.ensure_sub(sub_of(topic), match)
-        p.ensure_sub(sub_of(other), match)
+        p.ensure_sub(sub_of(topic), match, handlers=nhandlers(sub_of(topic)))
+        p.ensure_sub(sub_of(other), match, handlers=nhandlers(sub_of(other)))
         return p
+
+    nh = nhandlers(sub_of(topic))
 
     p = setup()
     args, kwargs, tags, shape = gen_payload(ctx.rng, ctx.tg, shape, size=ctx.case.get("size", "small"))
@@ -831,13 +838,15 @@ def faults_event(ctx, topic, other, shape, stride, pattern=False):
     def genuine_ok(when):
         evs = deliver(parts)
         R.count("positive_controls")
-        if len(evs) != 1 or evs[0][1] != topic or not same(evs[0][2], args) or not same(evs[0][3], kwargs):
-            ctx.V("C20/event/not-recovered/genuine-between-faults", "the genuine EVENT was not delivered exactly (%s)" % when,
-                  got=short(evs, 400))
+        if not events_exact(evs, nh, topic, args, kwargs):
+            ctx.V("C20/event/not-recovered/genuine-between-faults", "the genuine EVENT was not delivered exactly to each of the "
+                  "%d handlers of the subscription id (%s)" % (nh, when), got=short(evs, 400))
+        elif nh > 1:
+            R.count("multi_handler_events_compared")
 
     genuine_ok("before faults")
     got, pa, pk = positive_control(ctx, deliver, kid, topic, "event")
-    if len(got) != 1 or not same(got[0][2], pa) or not same(got[0][3], pk):
+    if not events_exact(got, nh, topic, pa, pk):
         ctx.V("C20/event/not-recovered/harness-sealed", "a correctly sealed EVENT payload was not delivered exactly", got=short(got, 300))
     n = 0
     for fclass, label, q, strict, env in variants(ctx, parts, kid, topic, args, kwargs, other, oparts, stride):
@@ -849,14 +858,17 @@ def faults_event(ctx, topic, other, shape, stride, pattern=False):
             if strict:
                 bad = True
             else:
-                bad = not (len(evs) == 1 and evs[0][1] == topic and same(evs[0][2], args) and same(evs[0][3], kwargs))
+                bad = not events_exact(evs, nh, topic, args, kwargs)
                 R.seen("enc_field_outcomes", "event/%s/delivered-original" % label)
-        elif not strict:
-            R.seen("enc_field_outcomes", "event/%s/%s" % (label, "rejected" if ctx.pair.alive() else "protocol-error"))
+        else:
+            if nh > 1:
+                R.count("multi_handler_rejections")
+            if not strict:
+                R.seen("enc_field_outcomes", "event/%s/%s" % (label, "rejected" if ctx.pair.alive() else "protocol-error"))
         if bad:
             ctx.V("C20/event/%s/handler-invoked" % fclass,
-                  "event handler ran after %s (%s) of an encrypted EVENT" % (fclass, label), label=label, got=short(evs, 500),
-                  original=short((topic, args, kwargs), 400))
+                  "%d of the %d event handlers on the subscription id ran after %s (%s) of an encrypted EVENT"
+                  % (len(evs), nh, fclass, label), label=label, got=short(evs, 500), original=short((topic, args, kwargs), 400))
         if not ctx.pair.alive():
             R.seen("session_aborts", "event/" + fclass)
         n += 1
@@ -869,16 +881,19 @@ def faults_event(ctx, topic, other, shape, stride, pattern=False):
               "alterations": n, "plain": short((args, kwargs), 200)}, kind="fault-enumeration")
 
 
-def faults_invocation(ctx, proc, other, shape, stride):
+def faults_invocation(ctx, proc, other, shape, stride, pattern=False):
     P = _P()
     R = ctx.R
     path = "invocation"
     kid = P.ref_has_box(ctx.side_a, True, proc)
+    # pattern: ONE prefix registration serves both URIs; the concrete URI travels in INVOCATION.details.procedure
+    reg_of = (lambda t: "com.c20.") if pattern else (lambda t: t)
+    det = (lambda t: {"procedure": t}) if pattern else (lambda t: None)
 
     def setup():
         p = ctx.P()
-        p.ensure_reg(proc)
-        p.ensure_reg(other)
+        p.ensure_reg(reg_of(proc), "prefix" if pattern else None)
+        p.ensure_reg(reg_of(other), "prefix" if pattern else None)
         return p
 
     p = setup()
@@ -897,7 +912,7 @@ def faults_invocation(ctx, proc, other, shape, stride):
         pp = setup()
         pp.script[:] = [script or ("value", "c20-lenient")]
         o, c = pp.call(env or proc, ["pending-slot"], {})
-        rid, invs, replies = pp.send_invocation(env or proc, q)
+        rid, invs, replies = pp.send_invocation(reg_of(env or proc), q, det(env or proc))
         pp.script[:] = []
         if len(replies) == 1:
             pp.forward_reply(c[1], replies[0])
@@ -920,8 +935,10 @@ def faults_invocation(ctx, proc, other, shape, stride):
     n = 0
     for fclass, label, q, strict, env in variants(ctx, parts, kid, proc, args, kwargs, other, oparts, stride):
         fault_count(ctx, path, fclass)
+        if pattern:
+            R.count("faults_pattern_registration")
         o, invs, replies = exchange(q, env)
-        ctx.nontrivial("fault", path, fclass, label)
+        ctx.nontrivial("fault", path + ("-pattern" if pattern else ""), fclass, label)
         alive = ctx.pair.alive()
         if invs:
             orig = len(invs) == 1 and invs[0][1] == proc and same(invs[0][2], args) and same(invs[0][3], kwargs)
@@ -957,25 +974,28 @@ def faults_invocation(ctx, proc, other, shape, stride):
               "alterations": n, "plain": short((args, kwargs), 200)}, kind="fault-enumeration")
 
 
-def faults_reply(ctx, proc, other, shape, stride, mode):
-    """mode: 'result' | 'progress' | 'error' - alterations of what travels back to the caller."""
+def faults_reply(ctx, proc, other, shape, stride, mode, pattern=False):
+    """mode: 'result' | 'progress' | 'error' - alterations of what travels back to the caller.  pattern: the genuine
+    replies come from an endpoint registered under a PREFIX, invoked with the concrete URI in details.procedure."""
     P = _P()
     R = ctx.R
     path = mode
+    reg_of = (lambda t: "com.c20.") if pattern else (lambda t: t)
+    det = (lambda t: {"procedure": t}) if pattern else (lambda t: None)
     size = ctx.case.get("size", "small")
     err_uri, err_other = "com.c20.p.err1", "com.c20.p.err9"
 
     def setup():
         p = ctx.P()
-        p.ensure_reg(proc)
-        p.ensure_reg(other)
+        p.ensure_reg(reg_of(proc), "prefix" if pattern else None)
+        p.ensure_reg(reg_of(other), "prefix" if pattern else None)
         return p
 
     def genuine_reply(pp, target, progressive, script):
         """a full genuine exchange up to the callee's replies -> (outcome, call id, replies)"""
         pp.script[:] = [script]
         o, c = pp.call(target, ["c20-req"], {}, progressive=progressive)
-        rid, invs, replies = pp.send_invocation(target, P.parts_of(c))
+        rid, invs, replies = pp.send_invocation(reg_of(target), P.parts_of(c), det(target))
         pp.script[:] = []
         return o, c, replies
 
@@ -1051,10 +1071,12 @@ def faults_reply(ctx, proc, other, shape, stride, mode):
     n = 0
     for fclass, label, q, strict, env in variants(ctx, parts, kid, uri, rargs, rkwargs, ouri, oparts, stride):
         fault_count(ctx, path, fclass)
+        if pattern:
+            R.count("faults_pattern_registration")
         o, prog = exchange(q, env)
         oc = ctx.outcome(o)
         alive = ctx.pair.alive()
-        ctx.nontrivial("fault", path, fclass, label)
+        ctx.nontrivial("fault", path + ("-pattern" if pattern else ""), fclass, label)
         if mode == "progress":
             if prog:
                 orig = len(prog) == 1 and same(prog[0][0], rargs) and same(prog[0][1], rkwargs)
@@ -1101,13 +1123,18 @@ def family_faults(ctx):
     shape = ctx.case.get("shape")
     # two URIs under the SAME key (needed for the URI swaps)
     uri, other = ctx.case.get("uris", ["com.c20.p.a1", "com.c20.p.b7"])
-    for path in ctx.case.get("paths", ["event", "event-pattern", "invocation", "result", "progress", "error"]):
+    for path in ctx.case.get("paths", ["event", "event-pattern", "invocation", "result", "progress", "error",
+                                       "invocation-pattern", "result-pattern", "progress-pattern", "error-pattern"]):
         if path == "event":
             faults_event(ctx, uri, other, shape, stride)
         elif path == "event-pattern":
             faults_event(ctx, uri, other, shape, max(stride, 3), pattern=True)
         elif path == "invocation":
             faults_invocation(ctx, uri, other, shape, stride)
+        elif path == "invocation-pattern":
+            faults_invocation(ctx, uri, other, shape, max(stride, 3), pattern=True)
+        elif path.endswith("-pattern"):
+            faults_reply(ctx, uri, other, shape, max(stride, 5), path[:-8], pattern=True)
         else:
             faults_reply(ctx, uri, other, shape, stride, path)
 
@@ -1281,7 +1308,7 @@ def run_shard(params, R):
     transport, ser = COMBOS[params["combo"]]
     R.seen("configs", "%s/%s/%s%s" % (params["fw"], transport, ser, "/purepy" if params["tier"].endswith("purepy") else ""))
     for k in DECIDING:
-        if k not in ("enc_error_uris", "layouts"):
+        if k not in ("enc_error_uris", "layouts", "pattern_policies"):
             R.count(k, 0)
     for case in cases_for(params):
         run_case(case, R)
